@@ -25,6 +25,11 @@ fractional months (that needs evaluation over the hours - a test, not a static a
          unchanged, and the walk ends only at the manager's input (the setter's parameter, the input file's
          'ground_loads' entry) or a None initialisation: nothing on the way scales, clips, filters, reorders,
          truncates or mutates the loads
+  R19.7  the files are the tables of the CURRENT design: write_all_output_files writes, under each of the three file
+         names, the rows attribute that the constructor fills from the matching row builder applied to its own
+         design parameter; the manager builds the OutputManager from its current search (self._search) and
+         prepare_results does not hand out an earlier OutputManager (early return on self.results: C13's R13.9
+         machinery, keyed or not)
 """
 from __future__ import annotations
 
@@ -433,7 +438,79 @@ def check(prog: Program, tier: str) -> Result:
         res.violation("R19.4", "gfunc-rows", prog.loc(fi, zp[0]) if zp else prog.loc(fi, fi.node), q, "the g-function table rows are not (x, y) of the simulation curve with y of the wall curve")
     _check_custody(prog, res)
     _check_loads_custody(prog, res)
+    _check_files(prog, res)
     return res
+
+
+FILE_BUILDERS = {"BoreFieldData": "get_borehole_location_data", "Loadings": "get_hourly_loading_data", "Gfunction": "get_g_function_data"}
+
+
+def _check_files(prog: Program, res: Result):
+    w = prog.func(f"{OM}.write_all_output_files")
+    init = prog.func(f"{OM}.__init__")
+    res.analysed(w.qualname)
+    res.analysed(init.qualname)
+    # rows attribute <- builder(design parameter) in the constructor
+    filled = {}
+    for s_ in walk_no_nested(init.node):
+        if isinstance(s_, ast.Assign) and len(s_.targets) == 1 and (attr_chain(s_.targets[0]) or "").startswith("self."):
+            filled.setdefault(attr_chain(s_.targets[0]), []).append(s_)
+    # file name <- rows attribute: the open(...) whose path mentions the file stem, and the writerows(...) inside that with-block
+    found = {}
+    for wi in ast.walk(w.node):
+        if not isinstance(wi, ast.With):
+            continue
+        stems = [k for k in FILE_BUILDERS for item in wi.items for c in ast.walk(item.context_expr) if isinstance(c, ast.Constant) and isinstance(c.value, str) and k in c.value]
+        if len(set(stems)) != 1:
+            continue
+        rows = [c for b_ in wi.body for c in ast.walk(b_) if isinstance(c, ast.Call) and isinstance(c.func, ast.Attribute) and c.func.attr in ("writerows", "writerow", "write") and c.args]
+        found.setdefault(stems[0], []).append((wi, rows))
+    for stem, builder in FILE_BUILDERS.items():
+        if stem not in found:
+            raise AnalysisError(f"{w.qualname}: no with-open block writes {stem}*.csv")
+        for wi, rows in found[stem]:
+            r = root_of(w.node, rows[0].args[0]) if len(rows) == 1 else ("unknown", wi, "not exactly one write in the block")
+            if r[0] == "unknown":
+                raise AnalysisError(f"{prog.loc(w, wi)}: what is written to {stem} is not understood ({r[2]})")
+            attr = r[1] if r[0] == "chain" else None
+            stores = filled.get(attr, []) if attr else []
+            okb = False
+            desc = "?"
+            if r[0] == "chain" and len(stores) == 1:
+                v = stores[0].value
+                desc = ast.unparse(v)[:60]
+                if isinstance(v, ast.Call) and attr_chain(v.func) == f"self.{builder}" and len(v.args) == 1 and not v.keywords:
+                    ra = root_of(init.node, v.args[0])
+                    okb = ra[0] == "param"
+            res.ob("R19.7", f"{stem}.csv <- {attr} <- {desc} with the constructor's own design", okb, prog.loc(w, wi))
+            if not okb:
+                res.violation("R19.7", f"file|{stem}", prog.loc(w, rows[0]) if rows else prog.loc(w, wi), w.qualname,
+                              f"{stem}.csv is written from {ast.unparse(rows[0].args[0])[:50] if rows else '?'} (= {desc}), not from the rows {builder}(design) builds for the design given to the constructor")
+    # the manager hands its current search to the OutputManager and does not keep an earlier one
+    from ..custody import call_sites
+
+    n_ctor = 0
+    for fi, n, b in call_sites(prog, init):
+        n_ctor += 1
+        res.analysed(fi.qualname)
+        d = b.get("design")
+        r = root_of(fi.node, d) if d is not None else ("unknown", n, "no design argument")
+        if r[0] == "unknown":
+            raise AnalysisError(f"{prog.loc(fi, n)}: origin of the design given to OutputManager() not understood ({r[2]})")
+        ok = r[0] == "param" or (r[0] == "chain" and r[1] == "self._search")
+        res.ob("R19.7", f"{fi.qualname}: OutputManager(design = {r[1] if r[0] in ('param', 'chain') else ast.unparse(d)[:40]}) - the manager's current search", ok, prog.loc(fi, n))
+        if not ok:
+            res.violation("R19.7", f"design-arg|{fi.qualname}", prog.loc(fi, n), fi.qualname, f"OutputManager is built from {ast.unparse(d)[:60]} instead of the manager's current search")
+    if n_ctor < 1:
+        raise AnalysisError("no construction of OutputManager found")
+    from . import c13
+
+    tmp = Result("C13")
+    c13._check_keyless_memos(prog, tmp)
+    memo = [f for f in tmp.findings if "self.results" in f.key]
+    res.ob("R19.7", "prepare_results builds a new OutputManager on every call (no early return on an earlier self.results whose inputs another method changes)", not memo, "ghedesigner/manager.py")
+    for f in memo:
+        res.violation("R19.7", f.key.split("|", 1)[-1], f.where, f.func, f.message + " - the written tables then describe the earlier design")
 
 
 def _check_loads_custody(prog: Program, res: Result):
@@ -609,6 +686,14 @@ DSM = "ghedesigner.design"
 MGM = "ghedesigner.manager"
 
 VARIANTS = [
+    Variant("prepare_results keeps the earlier result while the report labels are unchanged (seeded C19_d)", "break",
+            [(MGM, "    def prepare_results(self, project_name: str, note: str, author: str, iteration_name: str):\n", "    def prepare_results(self, project_name: str, note: str, author: str, iteration_name: str):\n        labels = (project_name, note, author, iteration_name)\n        if self.results is not None and labels == getattr(self, '_results_labels', None):\n            return\n        self._results_labels = labels\n")], "R19.7"),
+    Variant("bore-field file written from the loads rows", "break",
+            [(OUT, "            csv.writer(f_csv).writerows(self.borehole_location_data_rows)", "            csv.writer(f_csv).writerows(self.hourly_loading_data_rows)")], "R19.7"),
+    Variant("the constructor builds the g-function rows from another object's design", "break",
+            [(OUT, "        self.g_function_data_rows = self.get_g_function_data(design)", "        self.g_function_data_rows = self.get_g_function_data(getattr(design, \"previous\", design))")], "R19.7"),
+    Variant("rows handed to the writer through a local", "benign",
+            [(OUT, "            csv.writer(f_csv).writerows(self.borehole_location_data_rows)", "            rows = self.borehole_location_data_rows\n            csv.writer(f_csv).writerows(rows)")]),
     Variant("the GHE keeps its loads rounded to whole watts", "break",
             [(GHXM, "        self.hourly_extraction_ground_loads = hourly_extraction_ground_loads\n        self.times = []", "        self.hourly_extraction_ground_loads = [round(q) for q in hourly_extraction_ground_loads]\n        self.times = []")], "R19.6"),
     Variant("the GHE keeps a list copy of its loads", "benign",
